@@ -17,19 +17,23 @@ def wide_spec():
     tags = ["alpha", "beta", "gamma", "delta", "epsilon", "zeta", "eta"]
     schemes = {("key%d" % i): {"type": "apiKey", "in": "header", "name": "X-Key-%d" % i} for i in range(6)}
     schemes["basic"] = {"type": "basic"}
-    defs = {("def%d" % i): {"type": "object", "properties": {("p%d" % j): {"type": "string"} for j in range(7)}, "x-ext-%d" % i: "v"} for i in range(8)}
+    schemes["oauth"] = {"type": "oauth2", "flow": "accessCode", "authorizationUrl": "https://example.com/a", "tokenUrl": "https://example.com/t",
+                        "scopes": {("scope%d" % i): ("description %d" % i) for i in range(7)}}
+    defs = {("def%d" % i): {"type": "object", "properties": {("p%d" % j): {"type": "string", "x-order": j % 2} for j in range(7)}, "x-ext-%d" % i: "v"} for i in range(8)}
     paths = {}
     for i, t in enumerate(tags):
         paths["/%s/{id}" % t] = {"post": {
             "operationId": "op" + t.capitalize(), "tags": [t, tags[(i + 1) % len(tags)]],
-            "consumes": ["application/json", "application/xml", "text/plain", "application/x-yaml"],
-            "produces": ["application/json", "application/xml", "text/plain", "text/csv"],
-            "security": [{"key0": [], "key1": [], "key2": [], "key3": [], "basic": []}, {"key4": []}, {"key5": []}],
+            "consumes": ["application/json", "application/xml", "text/plain", "application/x-yaml", "application/vnd.api+json", "text/x-csv"],
+            "produces": ["application/json", "application/xml", "text/plain", "text/csv", "application/hal+json;charset=utf-8", "application/problem+xml"],
+            "security": [{"key0": [], "key1": [], "key2": [], "key3": [], "basic": []}, {"key4": []}, {"key5": []},
+                         {"oauth": ["scope0", "scope1", "scope2", "scope3", "scope4"]}],
             "parameters": [
                 {"name": "id", "in": "path", "required": True, "type": "string"},
                 {"name": "q", "in": "query", "type": "string"}, {"name": "Q", "in": "header", "type": "string"},
                 {"name": "limit", "in": "query", "type": "integer"}, {"name": "Limit", "in": "header", "type": "integer"},
                 {"name": "x-a", "in": "header", "type": "string"}, {"name": "x_a", "in": "query", "type": "string"},
+                {"name": "dup", "in": "query", "type": "string"}, {"name": "dup", "in": "header", "type": "integer"},
                 {"name": "body", "in": "body", "schema": {"$ref": "#/definitions/def%d" % i}}],
             "responses": {str(c): {"description": "r%d" % c, "schema": {"$ref": "#/definitions/def%d" % ((i + c) % 8)},
                                    "headers": {("X-H%d" % h): {"type": "string"} for h in range(6)}} for c in (200, 201, 400, 404, 409, 500)}}}
